@@ -109,6 +109,26 @@ def render(spec):
                         L.append("print %s%d()" % (what, j))
             elif k == "say":
                 L.append('print "%s says %s"' % (mod_name(spec, i), st[1]))
+            elif k == "bimport":
+                # an import statement INSIDE a block, with statements before it: it runs where it stands (not at block entry,
+                # not in front of the loop), once per execution of the statement, and not at all in a loop of zero turns
+                j, form, shape = st[1], st[2], st[3]
+                p = import_path(spec, i, j)
+                me = mod_name(spec, i)
+                tmp[0] += 1
+                has_state = any(x[0] == "state" for x in mods[j]["stmts"])
+                body = ['\tprint "%s says blk"' % me, "\timport %s" % p if (form == "mod" or not has_state) else "\timport bump%d from %s" % (j, p)]
+                if has_state:
+                    body.append("\tprint %s.bump%d()" % (mod_name(spec, j), j) if form == "mod" else "\tprint bump%d()" % j)
+                body.append('\tprint "%s says blkend"' % me)
+                if shape == "if_mid":
+                    L += ["if 1 == 1 {"] + body + ["}"]
+                elif shape == "else_mid":
+                    L += ["if 1 == 2 {", '\tprint "%s says no"' % me, "} else {"] + body + ["}"]
+                elif shape == "while1":
+                    L += ["bw%d = 0" % tmp[0], "while bw%d < 1 {" % tmp[0]] + body + ["\tbw%d = bw%d + 1" % (tmp[0], tmp[0]), "}"]
+                else:
+                    L += ["bw%d = 0" % tmp[0], "while bw%d < 0 {" % tmp[0]] + body + ["\tbw%d = bw%d + 1" % (tmp[0], tmp[0]), "}"]
             elif k == "defvia":
                 j = st[1]
                 L.append("export via%d_%d: fn() -> int = fn() -> int {\n\treturn %s.bump%d() * 10\n}" % (i, j, mod_name(spec, j), j))
@@ -204,6 +224,18 @@ def render(spec):
                     out.append(str(s.cell))
             elif k == "say":
                 out.append("%s says %s" % (mod_name(spec, i), st[1]))
+            elif k == "bimport":
+                j, shape = st[1], st[3]
+                if shape != "while0":
+                    out.append("%s says blk" % mod_name(spec, i))
+                    if not states[j].done:
+                        states[j].done = True
+                        run(j)
+                    if any(x[0] == "state" for x in mods[j]["stmts"]):
+                        states[j].cnt += 1
+                        states[j].cell += 1
+                        out.append(str(states[j].cnt))
+                    out.append("%s says blkend" % mod_name(spec, i))
             elif k == "usevia":
                 s = states[st[2]]
                 s.cnt += 1
@@ -328,6 +360,18 @@ def generate(rng, max_mods=5, negative=False):
         if modform and rng.chance(1, 2) and ["state"] in stmts:
             j = rng.choice(sorted(modform))
             stmts.append(["defvia", j])
+        if edges.get(i):
+            # imports inside blocks; a stream of its own (a function of what the module looks like so far), so that the
+            # graphs are what they were before this statement kind existed
+            import core
+            sub = core.Rng(core.derive(len(stmts), "bimport", repr(stmts), i, n))
+            if sub.chance(1, 4):
+                for _ in range(sub.range(1, 2)):
+                    j = sub.choice(sorted(edges[i]))
+                    # (a block may not import a name that is already bound outside it: the statement goes before the
+                    # module's own top-level imports of j)
+                    first = min([k for k, x in enumerate(stmts) if x[0] == "import" and x[1] == j] + [len(stmts)])
+                    stmts.insert(sub.below(first + 1), ["bimport", j, sub.choice(["mod", "names"]), sub.choice(["if_mid", "else_mid", "while1", "while0", "while0"])])
         spec["mods"][i]["stmts"] = stmts
         spec["mods"][i]["imported"] = {str(k): v for k, v in imported.items()}
     # importers use via functions of modules they imported in module form (appended after the defining import)
@@ -385,6 +429,9 @@ def valid(spec):
                 seen.add((st[1], st[2]))
                 if i in reach:
                     reach.add(st[1])
+            elif st[0] == "bimport":
+                if st[1] >= n or st[1] <= i or import_path(spec, i, st[1]) is None or any(x[0] == st[1] for x in seen):
+                    return False
             elif st[0] == "use":
                 if (st[1], st[2]) not in seen or not any(x[0] == "state" for x in spec["mods"][st[1]]["stmts"]):
                     return False
@@ -436,7 +483,7 @@ def shrink(spec):
                 yield c
     # drop the last module if nothing imports it
     last = len(mods) - 1
-    if last >= 1 and not any(s[0] in ("import", "use", "usevia", "neg", "defvia") and last in s[1:3] for m in mods for s in m["stmts"]):
+    if last >= 1 and not any(s[0] in ("import", "use", "usevia", "neg", "defvia", "bimport") and last in s[1:3] for m in mods for s in m["stmts"]):
         c = {"mods": [dict(m, stmts=list(m["stmts"])) for m in mods[:-1]]}
         if spec.get("stems"):
             c["stems"] = list(spec["stems"][:-1])
